@@ -9,7 +9,7 @@
    a str, or bytes under the process-global _byte_encoding 'utf8' | 'wide' | 'narrow'. *)
 From Coq Require Import ZArith List Bool Lia.
 Import ListNotations.
-From Urwid Require Import PyBase PyList Utf8 wcwidth_table_gen str_util_gen.
+From Urwid Require Import PyBase PyList Utf8 wcwidth_table_gen str_util_gen str_loops_gen.
 Open Scope Z_scope.
 
 (* ---------- the width table as a search tree (built once from the generated list) ---------- *)
@@ -40,6 +40,9 @@ Definition wc_tree : wtree := wtree_build 40 wcwidth_table.
 Definition wcwidth_tab (c : Z) : Z := wtree_lookup wc_tree c.
 
 Inductive tmode := MStr | MUtf8 | MWide | MNarrow.
+(* isinstance(text, str) and _byte_encoding, as the generated functions of Gen/str_loops_gen.v take them *)
+Definition is_str_of (m : tmode) : bool := match m with MStr => true | _ => false end.
+Definition benc_of (m : tmode) : benc := match m with MUtf8 => EUtf8 | MWide => EWide | _ => ENarrow end.
 
 Definition oz_eqb (a b : oz) : bool :=
   match a, b with
@@ -484,6 +487,36 @@ Definition apply_target_encoding (use_dec_special : bool) (s : list Z) : list Z 
 
 End Encode.
 
+(* ==================== the same functions, assembled from the GENERATED loops ====================
+   (Gen/str_loops_gen.v, re-translated from the source on every run).  Proofs/GenEq.v proves each of them
+   equal to the hand-written specification above for all inputs; the extracted model runs these. *)
+Definition within_double_byte_g (text : list Z) (line_start pos : Z) : result Z :=
+  within_double_byte_gen 3 text line_start pos.
+Definition calc_text_pos_g (wcw : Z -> Z) (m : tmode) (text : list Z) (a b col : Z) : result (Z * Z) :=
+  calc_text_pos_gen (calc_string_text_pos_gen (cw wcw)) decode_one (get_width wcw) within_double_byte_g
+                    (is_str_of m) (benc_of m) text a b col.
+Definition move_next_char_g (m : tmode) (text : list Z) (a b : Z) : result Z :=
+  move_next_char_gen within_double_byte_g (is_str_of m) (benc_of m) text a b.
+Definition move_prev_char_g (m : tmode) (text : list Z) (a b : Z) : result Z :=
+  move_prev_char_gen within_double_byte_g (is_str_of m) (benc_of m) text a b.
+Definition calc_trim_text_g (wcw : Z -> Z) (m : tmode) (text : list Z) (a b sc ec : Z) : result (Z * Z * Z * Z) :=
+  calc_trim_text_gen (list Z) (calc_text_pos_g wcw m) text a b sc ec.
+(* calc_width: the str path, the strict decode and the dispatch are hand-written; the fallback loop is generated *)
+Definition calc_width_g (wcw : Z -> Z) (m : tmode) (text : list Z) (a b : Z) : result Z :=
+  if b <? a then Err ValueError
+  else
+    match m with
+    | MStr => Ok (wsum wcw (py_slice text a b))
+    | MUtf8 =>
+        match strict_decode (py_slice text a b) with
+        | Some cs => Ok (wsum wcw cs)
+        | None => calc_width_fallback_gen decode_one (get_width wcw) text a b
+        end
+    | _ => Ok (b - a)
+    end.
+Definition is_wide_char_g (wcw : Z -> Z) (m : tmode) (text : list Z) (offs : Z) : result bool :=
+  is_wide_char_gen (cw wcw) decode_one (get_width wcw) within_double_byte_g (is_str_of m) (benc_of m) text offs.
+
 (* ==================== wire format (harness <-> extracted model) ==================== *)
 Definition dec_mode (m : Z) : tmode :=
   if m =? 0 then MStr else if m =? 1 then MUtf8 else if m =? 2 then MWide else MNarrow.
@@ -497,13 +530,13 @@ Definition reply {A} (r : result A) (f : A -> list Z) : list Z :=
 (* one query = 5 integers [f; a; b; c; d]; one reply = 5 integers [status; v1; v2; v3; v4] *)
 Definition answer (m : tmode) (text : list Z) (f a b c d : Z) : list Z :=
   let W := wcwidth_tab in
-  if f =? 1 then reply (calc_width W m text a b) (fun w => [w; 0; 0; 0])
-  else if f =? 2 then reply (calc_text_pos W m text a b c) (fun '(p, sc) => [p; sc; 0; 0])
-  else if f =? 3 then reply (move_next_char m text a b) (fun p => [p; 0; 0; 0])
-  else if f =? 4 then reply (move_prev_char m text a b) (fun p => [p; 0; 0; 0])
-  else if f =? 5 then reply (is_wide_char W m text a) (fun x => [enc_bool x; 0; 0; 0])
-  else if f =? 6 then reply (within_double_byte text a b) (fun r => [r; 0; 0; 0])
-  else if f =? 7 then reply (calc_trim_text W m text a b c d)
+  if f =? 1 then reply (calc_width_g W m text a b) (fun w => [w; 0; 0; 0])
+  else if f =? 2 then reply (calc_text_pos_g W m text a b c) (fun '(p, sc) => [p; sc; 0; 0])
+  else if f =? 3 then reply (move_next_char_g m text a b) (fun p => [p; 0; 0; 0])
+  else if f =? 4 then reply (move_prev_char_g m text a b) (fun p => [p; 0; 0; 0])
+  else if f =? 5 then reply (is_wide_char_g W m text a) (fun x => [enc_bool x; 0; 0; 0])
+  else if f =? 6 then reply (within_double_byte_g text a b) (fun r => [r; 0; 0; 0])
+  else if f =? 7 then reply (calc_trim_text_g W m text a b c d)
                             (fun '(sp, ep, pl, pr) => [sp; ep; pl; pr])
   else if f =? 8 then reply (decode_one text a) (fun '(o, n) => [o; n; 0; 0])
   else [-1; 0; 0; 0; 0].
@@ -547,11 +580,20 @@ Fixpoint codec_lookup (t : list (Z * list Z)) (c : Z) : list Z :=
 Definition run_rle_op (l : list Z) : list Z :=
   match l with
   | 1 :: r =>       (* rle_subseg rle start end *)
-      match dec_rle r with Some (x, s :: e :: _) => enc_rle (rle_subseg x s e) | _ => [-1] end
+      match dec_rle r with
+      | Some (x, s :: e :: _) => match rle_subseg_gen x s e with Ok y => enc_rle y | Err er => [-1 - errcode er] end
+      | _ => [-1]
+      end
   | 2 :: r =>       (* rle_get_at rle pos *)
-      match dec_rle r with Some (x, p :: _) => [enc_attr (rle_get_at x p)] | _ => [-1] end
+      match dec_rle r with
+      | Some (x, p :: _) => match rle_get_at_gen x p with Ok a => [enc_attr a] | Err er => [-1 - errcode er] end
+      | _ => [-1]
+      end
   | 3 :: r =>       (* rle_len *)
-      match dec_rle r with Some (x, _) => [rle_len x] | _ => [-1] end
+      match dec_rle r with
+      | Some (x, _) => match rle_len_gen x with Ok n => [n] | Err er => [-1 - errcode er] end
+      | _ => [-1]
+      end
   | 4 :: r =>       (* rle_product *)
       match dec_rle r with
       | Some (x, r') =>
